@@ -29,14 +29,19 @@ resolve_once = Fn(FA, "resolve_once", slot="resolver", ret="res", key="eval_asm:
         Rewrite("for (label_name, label_value) in labels.iter()", "for (label_name, label_value) in verif_label_entries(labels)", rule="R31", why="HashMap::iter() (no Verus support) -> the vector of its entries, order unspecified"),
         Rewrite("asm::resolver::instruction::resolve_encoding(", "resolve_encoding(", rule="R6", why="module path"),
     ],
-    inserts=[Insert("                cur_position += size;", "                proof { assume(cur_position + size <= usize::MAX); }\n", where="before", finding="D9a",
+    inserts=[Insert("                cur_position += size;", "\n                let ghost enc = *encodings@[0].1;\n                proof { pieces = old_pieces.push(enc); }\n", where="after", why="ghost bookkeeping: one more piece (the obligation is the loop invariant)"),
+             Insert("                cur_position += size;", "                proof { assume(cur_position + size <= usize::MAX); }\n", where="before", finding="D9a",
                     why="finding guard D9a: the position inside an asm block is advanced without an overflow check")],
     for_to_while=[1],
     loops={1: Loop(invariant=[
         C("kept", "query.report.msgs() == old(query).report.msgs() && query.report.parents() == old(query).report.parents() && query.ast == old(query).ast && query.span == old(query).span"),
         C("cursor", "verif_vec_1@ == old(query).ast.nodes@ && verif_next_1 <= verif_vec_1@.len() && bank_ok(defs, ctx.bank_ref) && bank_of(defs, ctx.bank_ref).addr_unit > 0 && result.size is Some && result.size->0 + position_at_start == cur_position"),
         C("stable_so_far_means_no_label_moved", "!unstable ==> labels_unmoved(old(labels), labels)"),
-    ], decreases="verif_vec_1@.len() - verif_next_1")},
+        C("the_value_so_far_is_the_encodings_resolved_so_far_joined_in_order", "0 <= result.val() < pow2(result.size->0 as nat) && result.size->0 == joined_size(pieces) && (forall|j: nat| bit_of(result.val(), j) == joined_bit(pieces, j as int))", ["C17", "C01"]),
+    ], decreases="verif_vec_1@.len() - verif_next_1",
+       body_start=" let ghost old_val = result.val(); let ghost ls = result.size->0 as nat; let ghost old_pieces = pieces;",
+       body_end=" proof { if pieces.len() != old_pieces.len() { let enc = pieces[pieces.len() - 1]; let size = enc.size->0; assert(pieces.subrange(0, pieces.len() - 1) =~= old_pieces); assert forall|j: nat| bit_of(result.val(), j) == joined_bit(pieces, j as int) by { if j < size { assert(bit_of(result.val(), j) == bit_of(enc.val(), (0 + j) as nat)); assert(joined_bit(pieces, j as int) == bit_of(enc.val(), j)); } else { let i = (j - size) as nat; assert(joined_bit(pieces, j as int) == joined_bit(old_pieces, j - size)); assert(bit_of(old_val, i) == joined_bit(old_pieces, i as int)); assert(bit_of(result.val(), j) == (j < ls + size && bit_of(old_val, (0 + j - (size - 0)) as nat))); if i >= ls { lemma_bit_of_small(old_val, ls, i); } } } } }",
+       before="    let ghost mut pieces: Seq<util::BigInt> = Seq::empty();\n    proof { vstd::arithmetic::power2::lemma2_to64(); assert forall|j: nat| !bit_of(0, j) by { lemma_bit_of_zero(j); } }")},
 )
 
 depth_stub = Fn("src/expr/eval.rs", "check_recursion_depth_limit", impl="EvalContext", slot="expr", mode="stub", ret="res", key="EvalContext::check_recursion_depth_limit",
@@ -68,7 +73,7 @@ UNIT = Unit(
     "U-asmblock", "u_asmblock/skeleton.rs",
     items=ur.COMMON + [ur.asm_query_type, ur.asm_result_type, Type(FA, "struct", "AsmSubstitution", slot="resolver"),
         ur.can_guess.as_stub("resolver"), ur.eval_address.as_stub("resolver"), ur.resolve_encoding_stub,
-        [f for f in cb.ALL_FNS if f.name == "concat"][0].as_stub("util"), uc.make_integer.as_stub("expr"),
+        [f for f in cb.ALL_FNS if f.name == "concat"][0].as_stub("util"), [f for f in cb.ALL_FNS if f.name == "checked_shl"][0].as_stub("util")] + cb.op_impl_stubs("util") + [ uc.make_integer.as_stub("expr"),
         parse_subst, perform_subst, resolve_once, depth_stub, any_span, iter_stub, ur.get_output_position.as_stub("resolver"), ur.get_address.as_stub("resolver"), eval_asm],
     serves=["C17", "C09", "C02", "C03"],
     description="asm::resolver::eval_asm::resolve_once: one pass over an asm block",
